@@ -67,6 +67,7 @@ func RunC01(tier string) int {
 			run.Infra(err.Error())
 			return
 		}
+		env.MaybeTTY(run, fmt.Sprint(i), 5)
 		keep := false
 		defer func() {
 			if !keep {
